@@ -340,7 +340,7 @@ func TestQuadConcurrent(t *testing.T) {
 // ---- diff/fd -------------------------------------------------------------------------
 
 type fdCase struct {
-	Kind    int // 0 Gradient 1 Jacobian 2 Hessian 3 Laplacian 4 CrossLaplacian
+	Kind    int // 0 Gradient 1 Jacobian 2 Hessian 3 Laplacian 4 CrossLaplacian 5 Derivative
 	Formula int
 	Dim     int
 	X       []int // x = X/4
@@ -387,7 +387,7 @@ func checkFD(c fdCase) *vk.Failure {
 	if c.Kind == 3 && !secondOrder {
 		formula = fdFormula(c.Formula + 3)
 	}
-	if c.Kind != 3 && secondOrder {
+	if c.Kind != 3 && c.Kind != 5 && secondOrder {
 		formula = fdFormula(c.Formula - 3)
 	}
 	type out struct {
@@ -434,6 +434,21 @@ func checkFD(c fdCase) *vk.Failure {
 						o.vals = append(o.vals, dst.At(i, j))
 					}
 				}
+			case 5:
+				// scalar Derivative with any of the six formulas; with
+				// OriginKnown the origin term is added by the calling
+				// goroutine while workers add theirs
+				f1 := func(t float64) float64 {
+					calls.Add(1)
+					if y != nil {
+						y.yield()
+					}
+					return float64(c.Q[0])*t*t + float64(c.L[0])*t + 3
+				}
+				if c.Origin {
+					set.OriginValue = float64(c.Q[0])*x[0]*x[0] + float64(c.L[0])*x[0] + 3
+				}
+				o.vals = []float64{fd.Derivative(f1, x[0], set)}
 			case 3:
 				o.vals = []float64{fd.Laplacian(f, x, set)}
 			case 4:
@@ -490,7 +505,7 @@ func TestFDConcurrent(t *testing.T) {
 	vk.Run(t, "fd-concurrent", vk.Opts{Quick: 6000, Thorough: 120000}, func(t *rapid.T) fdCase {
 		n := rapid.IntRange(1, 6).Draw(t, "dim")
 		c := fdCase{
-			Kind:    rapid.IntRange(0, 4).Draw(t, "kind"),
+			Kind:    rapid.IntRange(0, 5).Draw(t, "kind"),
 			Formula: rapid.IntRange(0, 5).Draw(t, "formula"),
 			Dim:     n,
 			Step:    rapid.IntRange(1, 6).Draw(t, "step"),
